@@ -81,6 +81,13 @@ type (
 		Close()
 	}
 
+	// ResiliencePolicyReferrer is implemented by filter specs that refer to
+	// resilience policies of their pipeline by name, so that the pipeline can
+	// validate the references.
+	ResiliencePolicyReferrer interface {
+		ResiliencePolicyRefs() (retry []string, circuitBreaker []string)
+	}
+
 	// Resiliencer is the interface of objects that accept resilience policies.
 	Resiliencer interface {
 		InjectResiliencePolicy(policies map[string]resilience.Policy)
